@@ -84,7 +84,9 @@ SCAL = st.one_of(st.none(), st.booleans(), st.integers(-2**70, 2**70), st.floats
                  st.text(alphabet=st.characters(blacklist_categories=("Cs",)), max_size=4), st.sampled_from(["1", "2.5", "true", "x"]))
 JSONV = st.recursive(SCAL, lambda c: st.one_of(st.lists(c, max_size=3), st.dictionaries(st.text(alphabet=st.characters(blacklist_categories=("Cs",)), max_size=3), c, max_size=3)), max_leaves=5)
 AMBIG = st.sampled_from(["7", "1", "0", "2.5", "true", "no", 1, 0, 7, 2.0, 3.5, True, False, {"x": 1}, {"x": "4"}, {"a": "1"}, {"a": 2, "b": ["3"]},
-                         [1, "2"], ["5"], {"k": "3"}, {"k": 1}, [], {}])
+                         [1, "2"], ["5"], {"k": "3"}, {"k": 1}, [], {},
+                         # dicts carrying keys the annotated model / dataclass does not declare: convertible (unknown keys are ignored)
+                         {"x": 1, "note": "n"}, {"x": "4", "y": "b", "z": 0}, {"a": 1, "b": [2], "tag": "t"}, {"k": 2, "k2": 3}])
 VALUE = st.one_of(
     AMBIG, AMBIG, JSONV,
     st.tuples(st.just("M"), st.integers(-5, 5), st.text(alphabet="abc", max_size=3)).map(list),
